@@ -25,7 +25,7 @@ Fragment(c, v) ==
                             <<CASE v = 0 -> Insn("lda", "dir", Id(<<"nosuchsym">>), "F1")
                                 [] v = 1 -> Insn("jmp", "dir", Id(<<"nosuchsym">>), "F1")
                                 [] v = 2 -> Insn("lda", "dir", Id(<<"segments">>), "F1")
-                                [] v = 3 -> Insn("ldx", "imm", [k |-> "id", name |-> ">segments.default", path |-> <<"segments", "default">>, mod |-> ">"], "F1")
+                                [] v = 3 -> Insn("ldx", "imm", [k |-> "id", name |-> "segments.default", path |-> <<"segments", "default">>, mod |-> ">"], "F1")
                                 (* the undefined name shares its expression with a `defined(..)' probe, on either side *)
                                 [] v = 4 -> Insn("lda", "imm", Bin("+", Id(<<"nosuchsym">>), Def(<<"far">>)), "F1")
                                 [] v = 5 -> Insn("lda", "imm", Bin("+", Def(<<"nosuchsym2">>), Id(<<"nosuchsym">>)), "F1")
